@@ -685,8 +685,20 @@ class C10(LiftProp):
                         for pos in sorted(set([b[2], b[3] - 1, rng.randint(b[2], b[3] - 1)])):
                             bases.append([b[0], b[1], pos])
             rng.shuffle(bases)
+            # C10_machine_intervals: whole requests from inside one block of a chain to inside a later one
+            ivs2 = []
+            for c in chains:
+                bl = [b for b in ch.chain_blocks(c) if b[3] > b[2]]
+                for _ in range(2):
+                    if bl:
+                        b1, b2 = rng.choice(bl), rng.choice(bl)
+                        lo = rng.choice([min(b1[2], b2[2]), rng.randint(b1[2], b1[3] - 1)])
+                        hi = rng.choice([max(b1[3], b2[3]), rng.randint(b2[2] + 1, b2[3])])
+                        if lo < hi:
+                            ivs2.append([b1[0], b1[1], lo, hi])
+            rng.shuffle(ivs2)
             yield {"kind": "swap", "chains": [ch.chain_to_dict(c) for c in chains], "style": ch.style_to_dict(ch.gen_style(rng)),
-                   "bases": bases[:12]}
+                   "bases": bases[:12], "ivs2": ivs2[:4]}
 
     def evaluate(self, ctx, case):
         ev = Eval()
@@ -722,6 +734,20 @@ class C10(LiftProp):
                 return ev
             if x[1] == "-" or y[1] == "-":
                 ev.nontrivial = (case_key(case), tuple(x))
+        if case.get("ivs2"):
+            i3, m3 = self.ask_lift(ctx, ev, case, case["ivs2"])
+            b3, answers3 = parse_liftover_reply(i3)
+            whole = [(iv, p) for iv, (tag, pairs) in zip(case["ivs2"], answers3) for p in pairs if p[3] > p[2]]
+            if whole:
+                i4, m4 = self.ask_lift(ctx, ev, twin, [[p[4], p[5], p[6], p[7]] for _, p in whole])
+                b4, answers4 = parse_liftover_reply(i4)
+                for (iv, p), (tag, pairs) in zip(whole, answers4):
+                    want = tuple(p[4:8]) + tuple(p[0:4])
+                    if want not in [tuple(q) for q in pairs]:
+                        ev.judge = ("lifting %s gives the pair %s, but lifting its query side in the twin gives %s, which lacks the reversed pair"
+                                    % (iv, p, pairs))
+                        return ev
+                ev.tags.append("intervals:%d" % min(len(whole), 5))
         return ev
 
     def shrink(self, case):
@@ -735,7 +761,14 @@ class C10(LiftProp):
                     if b[3] > b[2]:
                         bases += [[b[0], b[1], b[2]], [b[0], b[1], b[3] - 1]]
             c["bases"] = bases[:12]
+            c.pop("ivs2", None)
             yield c
+        if case.get("ivs2"):
+            for k in range(len(case["ivs2"])):
+                c = copy.deepcopy(case)
+                c["ivs2"] = [case["ivs2"][k]]
+                c["bases"] = []
+                yield c
 
     def neighbours(self, case, rng):
         chains = [ch.chain_from_dict(x) for x in case["chains"]]
